@@ -31,7 +31,9 @@ def body(run):
         proc = rng.choice(['auto', 'auto', 'ref', 'src'])
         thresh = rng.choice([None, 0.25, 0.6]) if model == 'gain-offset' else 0.25
         sm = fz.src_mask(rng, g.src_shape, rng.choice(['none', 'border', 'holes']))
-        pair = fz.make_pair(run.work, g, rng, smask=sm, tag='b')
+        # the source's invalid pixels are stored as NaN or as a fixed finite nodata value (which, unlike the data, does not scale)
+        skw = [dict(encoding='nan'), dict(encoding='nodata', nodata=-9999.0), dict(encoding='nan'), dict(encoding='nodata', nodata=-1.0)][k % 4]
+        pair = fz.make_pair(run.work, g, rng, smask=sm, tag='b', src_kw=skw)
         ups = rng.choice(['cubic_spline', 'bilinear', 'nearest'])
         try:
             mbm = fz.block_mem_for(pair['src_fn'], pair['ref_fn'], proc, rng.choice([1, 2, 4, 9]), 1.1)
@@ -40,7 +42,7 @@ def body(run):
             continue
         kw = dict(model=model, kernel_shape=kshape, proc_crs=proc, max_block_mem=mbm, threads=1,
                   model_config=dict(r2_inpaint_thresh=thresh, upsampling=ups))
-        desc = dict(geom=g.describe(), model=model, kernel_shape=list(kshape), proc_crs=proc, r2_inpaint_thresh=thresh,
+        desc = dict(geom=g.describe(), source_encoding=skw, model=model, kernel_shape=list(kshape), proc_crs=proc, r2_inpaint_thresh=thresh,
                     upsampling=ups, max_block_mem=mbm)
         try:
             try:
@@ -59,7 +61,7 @@ def body(run):
         # fit shows only there; powers of two keep every float32 operation exact, so the comparison stays bit for bit)
         for which, fac in [('src', 4.0), ('ref', 8.0), ('src', 0.125), ('src', 2.0 ** -14), ('ref', 2.0 ** -12), ('src', 2.0 ** 10)][:run.scale(6, 6)]:
             p2 = fz.make_pair(run.work, g, rng, src=pair['src'] * (fac if which == 'src' else 1),
-                              ref=pair['ref'] * (fac if which == 'ref' else 1), smask=sm, tag='s')
+                              ref=pair['ref'] * (fac if which == 'ref' else 1), smask=sm, tag='s', src_kw=skw)
             sc = fz.fuse(p2['src_fn'], p2['ref_fn'], run.work / 'scaled.tif', **kw)
             kc = 1.0 if which == 'src' else fac
             key = f'{model}/{which}x{fac}/{base["proc_crs"]}'
